@@ -32,7 +32,7 @@ def val(rnd, ty, np_ok=True):
             return ["npfloat32", f64(rnd.choice([1.5, -2.25, 0.0, 1024.0]))]
         return ["float", f64(x)]
     if ty == "str":
-        return ["str", rnd.randrange(8)]
+        return ["str", rnd.randrange(14)]
     return [ty, 0]
 
 
